@@ -16,7 +16,10 @@ pub fn decode_internal(schema: &Schema, names: &Names, enclosing_namespace: Name
         match r {
             Ok(v) => dec_ok(*schema, *names, enclosing_namespace, old(reader)@) && v == dec_val(*schema, *names, enclosing_namespace, old(reader)@)
                 && dec_len(*schema, *names, enclosing_namespace, old(reader)@) <= old(reader)@.len()
-                && final(reader)@ == old(reader)@.skip(dec_len(*schema, *names, enclosing_namespace, old(reader)@) as int),
+                && final(reader)@ == old(reader)@.skip(dec_len(*schema, *names, enclosing_namespace, old(reader)@) as int)
+                // kind facts for the leaf schemas, PROVED for the corresponding arms in unit U4 (decode_arm_bytes/string/fixed):
+                && (*schema is Bytes ==> v is Bytes) && (*schema is String ==> v is String)
+                && (*schema matches Schema::Fixed(f) ==> v matches Value::Fixed(n, b) && n == f.size && b@.len() == f.size),
             Err(_) => true,
         },
 { unimplemented!() }
